@@ -10,3 +10,4 @@ import Vise.Engine
 import Vise.Db
 import Vise.PgTx
 import Vise.Asm
+import Vise.FsCrash
